@@ -590,7 +590,7 @@ package ord
 //
 //@ schema N=4..4
 //@ lemma tuple{N}OrdDef[<<i=1..N|, |A$i>> any](<<i=1..N|, |o$i fp.Ord[A$i]>>, x fp.Tuple{N}[<<i=1..N|, |A$i>>], y fp.Tuple{N}[<<i=1..N|, |A$i>>])
-//@   prop C10
+//@   prop C10 C14
 //@   requires <<i=1..N| && |veriflaws.OrdCore(o$i)>>
 //@   ensures Tuple{N}(<<i=1..N|, |o$i>>).Less(x, y) == (<<k=1..N-1||o$k.Less(x.I$k, y.I$k) || (o$k.Eqv(x.I$k, y.I$k) && (>>o{N}.Less(x.I{N}, y.I{N})<<k=1..N-1||))>>)
 //@   tag defLess
